@@ -68,6 +68,33 @@ def _amount_ok(w, b, pv, o, depth=0):
                 if not ok:
                     return False, 'call site in %s passes %s' % (cb.short, why)
         return True, 'by-value parameter; all %d call sites pass Config.tab_spaces' % len(callers)
+    if o[0] == 'call' and not o[2] and depth < 3:
+        # a helper of typstyle-core that returns the unit (`fn indent_unit(&self) -> isize { self.config.tab_spaces as isize }`)
+        t = pv.call_term(o)
+        cb = w.bodies.get(resolved_id(t))
+        if cb is not None and cb.crate is w.core and cb.def_kind in ('Fn', 'AssocFn') and not cb.short.startswith('pretty::DocBuilder'):
+            cpv = Prov(cb)
+            rets = cpv._origins_local(0, frozenset())
+            if rets:
+                for ro in rets:
+                    ok, why = _amount_ok(w, cb, cpv, ro, depth + 1)
+                    if not ok:
+                        return False, '%s returns %s' % (cb.short, why)
+                return True, 'returned by %s, which returns Config.tab_spaces' % cb.short
+    if o[0] == 'param' and o[1] == 1 and o[2] and b.def_kind == 'Closure' and depth < 3:
+        # a captured variable of a closure: judged where the closure is created
+        fld = [e for e in o[2] if e[0] == 'f']
+        parent = w.bodies.get(b.parent)
+        if fld and parent is not None:
+            ppv = Prov(parent)
+            for blk in parent.blocks:
+                for st in blk['stmts']:
+                    if st['s'] == 'assign' and st['rv']['r'] == 'agg' and st['rv'].get('ak') == 'closure' and st['rv']['def']['id'] == b.id and fld[0][1] < len(st['rv']['ops']):
+                        for co in ppv.peel(ppv.origins_operand(st['rv']['ops'][fld[0][1]])):
+                            ok, why = _amount_ok(w, parent, ppv, co, depth + 1)
+                            if not ok:
+                                return False, 'captured from %s: %s' % (parent.short, why)
+                        return True, 'captured from %s, where it is Config.tab_spaces' % parent.short
     return False, fmt_origin(o, b)
 
 
@@ -224,6 +251,11 @@ def _judge_use(w, r, b, u, work, direct):
             r.bad(cons, '%s|cast' % b.short, 'indent unit cast with %s' % u['rv']['kind'], loc)
             return
         work.append((b, dl))
+        if dl == 0 and not dp:
+            # returned: the flow continues at the destination of every call of this function
+            for (cb2, bi2, t2) in _callers_of(w, b.id):
+                if not t2['dest']['proj']:
+                    work.append((cb2, t2['dest']['l']))
         r.ok(cons, 'copy/cast')
         return
     if how == 'call-arg':
@@ -249,6 +281,16 @@ def _judge_use(w, r, b, u, work, direct):
         if rv['ak'] == 'adt' and rv['adt'] == CONFIG_ID:
             r.ok(cons, 'copied into another Config')
             return
+        if rv['ak'] == 'closure' and rv['def']['id'] in w.bodies:
+            # captured by a closure: the flow continues at the closure's reads of that captured variable
+            cb = w.bodies[rv['def']['id']]
+            n = 0
+            for cu in iter_uses(cb):
+                if cu['local'] == 1 and [e for e in cu['proj'] if e[0] == 'f'][:1] == [('f', u['index'])]:
+                    n += 1
+                    _judge_use(w, r, cb, cu, work, direct=True)
+            r.ok(cons, 'captured by closure %s (%d reads followed)' % (cb.short, n))
+            return
         r.bad(cons, '%s|agg' % b.short, 'indent unit stored into an aggregate %s in %s' % (rv.get('path', rv['ak']), b.short), loc)
         return
     if how == 'ref':
@@ -265,6 +307,7 @@ def _judge_use(w, r, b, u, work, direct):
 
 def r4_writers(w):
     r = RuleResult('C12.R4', 'Config.tab_spaces is written only by Config constructors/builders and the CLI option mapping', floor=3 if w.cli is not None else 2)
+    builders = []
     for b in w.fn_bodies():
         if _is_config_trait_impl(b) and (b.j['impl_trait'] or {}).get('path') != 'std::default::Default':
             continue
@@ -291,6 +334,20 @@ def r4_writers(w):
                 ret = b.locals[0]['ty']['s']
                 cons = {'fn': b.short, 'value': [fmt_origin(o, b) for o in origs]}
                 returns_config = ret.split('::')[-1] == 'Config'
+                if not returns_config and rv['r'] == 'agg' and origs:
+                    # `Config { x, ..other }` anywhere: the unit copied from the same field of another Config is a copy, not a choice
+                    def same_field(o_):
+                        so_ = strip_casts(o_)
+                        if so_[0] == 'call' and so_[2] and b.locals[pv.call_term(so_)['dest']['l']]['ty'].get('id') == CONFIG_ID:
+                            st_, _ = name_projection(w, b.locals[pv.call_term(so_)['dest']['l']]['ty'], so_[2])
+                            return bool(st_) and st_[-1] == UNIT
+                        if so_[0] == 'param' and so_[2]:
+                            st_, _ = name_projection(w, b.locals[so_[1]]['ty'], so_[2])
+                            return bool(st_) and st_[-1] == UNIT
+                        return False
+                    if all(same_field(o_) for o_ in origs):
+                        r.ok(cons, 'copied from the same field of another Config (struct update)')
+                        continue
                 if not returns_config and 'serde' in _impl_trait_chain(w, b) and 'Config' in ret:
                     r.ok(cons, 'derive(Deserialize): builds a Config from the caller\'s deserializer')
                     continue
@@ -321,9 +378,37 @@ def r4_writers(w):
                         good = False
                 if good:
                     r.ok(cons, 'constructor/builder/option mapping')
+                    for o in origs:
+                        so = strip_casts(o)
+                        if so[0] == 'param' and not so[2] and b.crate is w.core:
+                            builders.append((b, so[1]))
                 else:
                     r.bad(cons, '%s|value' % b.short, 'Config.tab_spaces is set from %s in %s' % (cons['value'], b.short), b.loc(s['span']))
+    # call sites of the builders that take the unit as an argument: the CLI passes its --tab-width option, the library a unit it already holds
+    for (bb_, pidx) in builders:
+        for (cb, bi, t) in _callers_of(w, bb_.id):
+            cpv = Prov(cb)
+            origs = cpv.origins_operand(t['args'][pidx - 1])
+            cons = {'fn': cb.short, 'builder': bb_.short, 'value': [fmt_origin(o, cb) for o in origs]}
+            good = bool(origs)
+            for o in origs:
+                so = strip_casts(o)
+                steps = name_projection(w, cb.locals[so[1]]['ty'], so[2])[0] if so[0] == 'param' else None
+                if cb.crate is w.cli:
+                    good = good and bool(steps) and steps[-1] == 'typstyle::cli::StyleArgs.tab_width'
+                else:
+                    good = good and (so[0] == 'param' and (not so[2] or (steps and steps[-1] == UNIT)))
+            if good:
+                r.ok(cons, 'builder called with the CLI option / a unit the caller already holds')
+            else:
+                r.bad(cons, '%s|builder-arg' % cb.short, '%s passes %s to %s as the indent unit' % (cb.short, cons['value'], bb_.short), cb.loc(t['span']))
     return r
+
+
+def _owner(w, b):
+    while b.def_kind == 'Closure' and b.parent in w.bodies:
+        b = w.bodies[b.parent]
+    return b
 
 
 def _is_text_postprocessor(b):
@@ -369,7 +454,7 @@ def r5_no_literal_indentation(w):
                         r.bad(cons, '%s|literal|%r' % (b.short, lit),
                               'string literal %r in %s carries layout (line break / tab / run of blanks): indentation would not be a multiple of the unit'
                               % (lit, b.short), b.loc(sp))
-                    elif lit == '\n' and not _is_text_postprocessor(b):
+                    elif lit == '\n' and not _is_text_postprocessor(_owner(w, b)):
                         r.bad(cons, '%s|literal|%r' % (b.short, lit), 'literal line break emitted as text in %s bypasses the renderer\'s indentation' % b.short, b.loc(sp))
                     else:
                         r.ok(cons, 'no embedded layout')
